@@ -1,11 +1,13 @@
 import PyrollModel.Gen.C07Hooks
+import PyrollModel.Gen.C07ErrPath
 
 /-
   Failure — model of hook evaluation with failures (C07).
 
   Mirrors `pyroll/core/hooks.py`:
     * `_all_finite`                     → `npIsFiniteAll` (what `np.isfinite(value).all()` does) + `allFinite`
-    * `Hook.__get__`                    → `eval … (.read i h)`      (dict → cache → get_result → 3 conversions → store)
+    * `Hook.__get__`                    → `eval … (.read i h)`      (dict → cache → get_result → 3 conversions → store →
+                                           construction of the error: `finish`)
     * `Hook.get_result`                 → `eval … (.chain i h fs)`  (first not-None result of the chain)
     * `HookFunction.__call__`           → the `f :: fs` case of `.chain` (mark, call, `finally` un-mark by the
                                            outermost call only, `except StopIteration`)
@@ -27,6 +29,13 @@ import PyrollModel.Gen.C07Hooks
     `Gen.C07.Hooks.getStoreAfter`  → `stored` (how many of these checks have passed when the value is written to `__cache__`),
     `Gen.C07.Hooks.callDiscardInFinally`, `callDiscardGuard` → `unmark` (the mark is discarded also when the call ends in an
                                       exception; a nested, cycled call leaves the mark of the outer one).
+  and from `PyrollModel/Gen/C07ErrPath.lean` (`driver/translate/c07_errpath.py`, same run):
+    `Gen.C07.ErrPath.onInstance`   → `errTask` / `finish` (the CONSTRUCTION OF THE ERROR is a step of its own: per failing check the
+                                      evaluations ON the instance that building the message performs - `{instance!r}`,
+                                      `instance.__attrs__`, a `__str__` that reads hooks …; when the entry of the failing check is
+                                      not empty the frame runs the instance's `__attrs__` program (`Prog.attrs`) before it
+                                      raises: what that program reads is computed and remembered, and an exception it raises
+                                      replaces the documented one).
 -/
 
 namespace Failure
@@ -156,6 +165,11 @@ def resolve (self : Nat) : Option Nat → Nat
 structure Prog where
   chain : Nat → List Nat
   body : Nat → Body
+  /-- `attrs i` = what evaluating `repr(instance)` / `instance.__attrs__` runs on instance `i` (`pyroll/core/repr.py`: the
+      `__attrs__` property; on roll passes it computes the contour lines, i.e. reads `gap` and the roll's contour): a program
+      like an implementation body (`none` = the instance itself).  Hosts whose `__attrs__` only lists `__dict__` and
+      `__cache__` have the default. -/
+  attrs : Nat → Body := fun _ => .ret .none
 
 /-! ### state -/
 
@@ -254,6 +268,35 @@ def unmark (st1 : St) (f i : Nat) (cyc : Bool) (r : Res) : St :=
     (if cyc && Gen.C07.Hooks.callDiscardGuard == "unless cycle" then st1 else st1.setMark f i false)
   else st1
 
+/-- which entry of the list of checks raises for the outcome `r` of `get_result` (`none`: a value that passes, or an exception
+    of an implementation that passes through untouched) -/
+def firedAux : List (String × String) → Nat → Res → Option Nat
+  | [], _, _ => none
+  | c :: cs, k, r => if applyCheck c r != r then some k else firedAux cs (k + 1) r
+
+/-- THE ERROR PATH.  What the construction of the exception evaluates on the instance, as a program to run before the
+    `raise`: nothing (`none`) when no check fires or when the block of the firing check evaluates nothing on the instance
+    (its entry of the GENERATED table `tbl` is empty); otherwise the instance's `__attrs__` program. -/
+def errTaskWith (tbl : List (List String)) (cs : List (String × String)) (P : Prog) (i : Nat) (r : Res) : Option Body :=
+  match firedAux cs 0 r with
+  | none => none
+  | some k => if (tbl.getD k []).isEmpty then none else some (P.attrs i)
+
+/-- … for the tables read from the source -/
+def errTask (P : Prog) (i : Nat) (r : Res) : Option Body :=
+  errTaskWith Gen.C07.ErrPath.onInstance Gen.C07.Hooks.getChecks P i r
+
+/-- the end of a computing `Hook.__get__`: `pr` = the converted outcome, `st2` = the state at the `raise` / `return`; `ev` = the
+    evaluation with the remaining frames.  The error-path program `et` runs first (it is not an implementation: function
+    number 0, not cycled); what it remembers stays, and an exception it raises is what the read raises. -/
+def finish (et : Option Body) (ev : St → Task → Res × St) (i : Nat) (pr : Res) (st2 : St) : Res × St :=
+  match et with
+  | none => (pr, st2)
+  | some b =>
+    match ev st2 (.body 0 i false 0 b) with
+    | (.exc e, st3) => (.exc e, st3)
+    | (.val _, st3) => (pr, st3)
+
 /-- the state after `__get__` finished: stored only if all checks passed -/
 def store (st : St) (i h : Nat) : Res → St
   | .val v => st.setCache i h v
@@ -269,7 +312,7 @@ def eval (P : Prog) : Nat → St → Task → Res × St
       | some v => (.val v, st)
       | none =>
         let (r, st1) := eval P n (st.enter i h) (.chain i h (P.chain h))
-        (post r, store (st1.setReading i h (st.reading i h)) i h (stored r))
+        finish (errTask P i r) (eval P n) i (post r) (store (st1.setReading i h (st.reading i h)) i h (stored r))
   | _ + 1, st, .chain _ _ [] => (.val .none, st)
   | n + 1, st, .chain i h (f :: fs) =>
     let cyc := st.marks f i
